@@ -171,7 +171,7 @@ func runC01(c *core.Ctx) {
 		{"round-change-quorum", "T(ssv-spec/qbft.HasQuorum(p0.Share, p2))", "a later-round proposal needs a round-change quorum"},
 	})
 	// the "was any round change prepared?" predicate: a closure today; found by its role (called on the
-	// round-change slice, returns (bool, error)) so that turning it into a named helper keeps the rule
+	// round-change slice, returns bool or (bool, error)) so that turning it into a named helper keeps the rule
 	prepPred, prepCall := "", (*ssa.Function)(nil)
 	if f := fn(c, "C01-R3", ipj); f != nil {
 		a := c.E.Analyze(f)
@@ -186,21 +186,26 @@ func runC01(c *core.Ctx) {
 					continue
 				}
 				res := callee.Signature.Results()
-				if res.Len() != 2 || res.At(0).Type().String() != "bool" || res.At(1).Type().String() != "error" || len(cv.Call.Args) != 1 {
+				isPred := res.Len() >= 1 && res.At(0).Type().String() == "bool" &&
+					(res.Len() == 1 || (res.Len() == 2 && res.At(1).Type().String() == "error"))
+				if !isPred || len(cv.Call.Args) != 1 {
 					continue
 				}
 				if a.D.D(cv.Call.Args[0]).String() != "p2" {
 					continue
 				}
 				prepPred, prepCall = a.D.D(cv).String(), callee
+				if res.Len() == 2 {
+					prepPred += "#0"
+				}
 			}
 		}
 	}
 	if prepCall == nil {
-		c.Undischarged("C01-R3", "isProposalJustification|previously-prepared predicate", "no call of a (bool, error) predicate on the round-change messages found")
+		c.Undischarged("C01-R3", "isProposalJustification|previously-prepared predicate", "no call of a bool predicate on the round-change messages found")
 		return
 	}
-	ensuresIf(c, "C01-R3", ipj, "err=nil", "previously prepared", "T("+prepPred+"#0)", []Req{
+	ensuresIf(c, "C01-R3", ipj, "err=nil", "previously prepared", "T("+prepPred+")", []Req{
 		{"prepare-quorum", "T(ssv-spec/qbft.HasQuorum(p0.Share, p3))", "re-proposing a prepared value needs its prepare quorum"},
 		{"highest-prepared", "nonnil(" + iN + "highestPrepared(p2)#0)", ""},
 		{"value-is-highest-prepared", "T(bytes.Equal(ssv-spec/qbft.HashDataRoot(p6)#0[:], " + iN + "highestPrepared(p2)#0.Message.Root[:]))", "the proposal must re-propose the highest prepared value"},
